@@ -831,6 +831,29 @@ def _coalesce(fdef) -> None:
     the copy.  ``_inlN_*`` names are fresh, so nothing else can observe the difference."""
     a = fdef.args
     params = {x.arg for x in a.posonlyargs + a.args + a.kwonlyargs} | ({a.vararg.arg} if a.vararg else set()) | ({a.kwarg.arg} if a.kwarg else set())
+    # x1, .., xn = _inlK_ret  with the single definition  _inlK_ret = (y1, .., yn)  of plain names:  x1 = y1; ..; xn = yn
+    for block in list(_blocks(fdef)):
+        for i, st in enumerate(list(block)):
+            if isinstance(st, ast.Assign) and len(st.targets) == 1 and isinstance(st.targets[0], (ast.Tuple, ast.List)) and isinstance(st.value, ast.Name) \
+                    and st.value.id.startswith("_inl") and all(isinstance(e, ast.Name) for e in st.targets[0].elts):
+                var = st.value.id
+                defs_ = [(b, j, d) for b in _blocks(fdef) for j, d in enumerate(b) if isinstance(d, ast.Assign) and len(d.targets) == 1
+                         and isinstance(d.targets[0], ast.Name) and d.targets[0].id == var]
+                real = [(b, j, d) for (b, j, d) in defs_ if not (isinstance(d.value, ast.Constant) and d.value.value is None)]
+                loads = [x for x in ast.walk(fdef) if isinstance(x, ast.Name) and x.id == var and isinstance(x.ctx, ast.Load)]
+                if len(real) == 1 and len(loads) == 1 and isinstance(real[0][2].value, ast.Tuple) and len(real[0][2].value.elts) == len(st.targets[0].elts) \
+                        and all(_simple_arg(e) for e in real[0][2].value.elts) and real[0][0] is block:
+                    news = []
+                    for t_, v_ in zip(st.targets[0].elts, real[0][2].value.elts):
+                        asg = ast.Assign(targets=[ast.Name(id=t_.id, ctx=ast.Store())], value=copy.deepcopy(v_))
+                        ast.copy_location(asg, st)
+                        ast.fix_missing_locations(asg)
+                        news.append(asg)
+                    idx = block.index(st)
+                    block[idx:idx + 1] = news
+                    for (b, j, d) in defs_:
+                        if d in b:
+                            b.remove(d)
     for _ in range(50):
         store_count: Dict[str, int] = {}
         for x in ast.walk(fdef):
@@ -863,6 +886,96 @@ def _coalesce(fdef) -> None:
                 break
         if not done:
             return
+
+
+KNOWN_GLOBALS = os.path.join(os.path.dirname(os.path.abspath(__file__)), "known_globals.txt")
+_MUTATORS = {"append", "extend", "insert", "pop", "remove", "clear", "update", "setdefault", "popitem", "add", "discard", "sort", "reverse",
+             "appendleft", "popleft", "__setitem__", "__delitem__"}
+
+
+def load_known_globals() -> Set[str]:
+    if not os.path.exists(KNOWN_GLOBALS):
+        return set()
+    with open(KNOWN_GLOBALS) as f:
+        return {l.strip() for l in f if l.strip()}
+
+
+def _literal(e: ast.AST) -> bool:
+    if isinstance(e, ast.Constant):
+        return True
+    if isinstance(e, (ast.Tuple, ast.List, ast.Set)):
+        return all(_literal(x) for x in e.elts)
+    if isinstance(e, ast.Dict):
+        return all(k is not None and _literal(k) and _literal(v) for k, v in zip(e.keys, e.values))
+    if isinstance(e, ast.Attribute):       # codecs.BOM_UTF8, decimal.ROUND_DOWN: a dotted name
+        return _simple_arg(e)
+    if isinstance(e, ast.UnaryOp) and isinstance(e.op, ast.USub):
+        return _literal(e.operand)
+    return False
+
+
+def propagate_new_constants(tree: ast.Module, modname: str, known_globals: Set[str], all_trees: List[ast.Module]) -> List[str]:
+    """A module-level name that the pinned snapshot does not have, bound once to a literal and never mutated or re-exported (a table
+    somebody hoisted out of a function): its reads inside this module's functions are replaced by the literal again."""
+    log: List[str] = []
+    for st in list(tree.body):
+        tgt = None
+        if isinstance(st, ast.Assign) and len(st.targets) == 1 and isinstance(st.targets[0], ast.Name):
+            tgt = st.targets[0].id
+        elif isinstance(st, ast.AnnAssign) and isinstance(st.target, ast.Name) and st.value is not None:
+            tgt = st.target.id
+        if tgt is None or f"{modname}.{tgt}" in known_globals or not _literal(st.value) or isinstance(st.value, ast.Constant):
+            continue
+        stores = [x for x in ast.walk(tree) if isinstance(x, ast.Name) and x.id == tgt and isinstance(x.ctx, (ast.Store, ast.Del))]
+        if len(stores) != 1:
+            continue
+        loads = [x for x in ast.walk(tree) if isinstance(x, ast.Name) and x.id == tgt and isinstance(x.ctx, ast.Load)]
+        bad = False
+        # parents are not linked yet: look at every construct that could mutate or alias it
+        for x in ast.walk(tree):
+            if isinstance(x, ast.Call) and isinstance(x.func, ast.Attribute) and isinstance(x.func.value, ast.Name) and x.func.value.id == tgt \
+                    and x.func.attr in _MUTATORS:
+                bad = True
+            if isinstance(x, (ast.Subscript, ast.Attribute)) and isinstance(x.ctx, (ast.Store, ast.Del)) and isinstance(x.value, ast.Name) and x.value.id == tgt:
+                bad = True
+            if isinstance(x, (ast.Global, ast.Nonlocal)) and tgt in x.names:
+                bad = True
+            if isinstance(x, ast.AugAssign) and isinstance(x.target, ast.Name) and x.target.id == tgt:
+                bad = True
+        for t in all_trees:
+            if t is tree:
+                continue
+            for x in ast.walk(t):
+                if isinstance(x, ast.Attribute) and x.attr == tgt or isinstance(x, ast.alias) and x.name == tgt:
+                    bad = True
+        if bad or not loads:
+            continue
+        # shadowing: a function that binds the same name locally is left alone (none expected for a private table)
+        for fdef in [x for x in ast.walk(tree) if isinstance(x, (ast.FunctionDef, ast.AsyncFunctionDef, ast.Lambda))]:
+            a = fdef.args
+            if tgt in {p.arg for p in a.posonlyargs + a.args + a.kwonlyargs}:
+                bad = True
+        if bad:
+            continue
+        lit = st.value
+        for top in tree.body:
+            if top is st:
+                continue
+            _ReplaceName(tgt, lit).visit(top)
+        tree.body.remove(st)
+        log.append(f"{modname}.{tgt}: new module-level literal propagated into its {len(loads)} use(s)")
+    return log
+
+
+class _ReplaceName(ast.NodeTransformer):
+    def __init__(self, name: str, value: ast.AST):
+        self.name, self.value = name, value
+
+    def visit_Name(self, node: ast.Name):
+        if node.id == self.name and isinstance(node.ctx, ast.Load):
+            new = copy.deepcopy(self.value)
+            return new
+        return node
 
 
 def new_top_level_functions(tree: ast.Module, modname: str, known: Set[str]) -> Dict[str, ast.AST]:
